@@ -177,6 +177,29 @@ fn f62_inv_zero_contract() {
     assert!(BaseElement(x).inv() == BaseElement::ZERO);
 }
 
+/// Serializable::write_into writes a CANONICAL encoding for every internal representative in [0, 2M): 8 bytes whose
+/// little-endian value is below M (so the library's own decoder accepts it), the two representatives of a residue
+/// (a and a + M) are encoded identically, and both representatives of zero encode as 0.
+/// (The functional part - the value written is the residue - is the Verus unit f62v.)
+#[kani::proof]
+#[kani::stub(alloc::fmt::format, fmt_stub)]
+fn f62_write_into_canonical_contract() {
+    let a = any_rep();
+    kani::cover!(a == M);
+    let mut out: Vec<u8> = Vec::new();
+    BaseElement(a).write_into(&mut out);
+    assert!(out.len() == 8);
+    let mut b8 = [0u8; 8];
+    b8.copy_from_slice(&out);
+    let w = u64::from_le_bytes(b8);
+    assert!(w < M);
+    if a == 0 || a == M {
+        assert!(w == 0);
+    }
+    let mut rd = SliceReader::new(&out);
+    assert!(BaseElement::read_from(&mut rd).is_ok());
+}
+
 #[kani::proof]
 fn f62_canary_must_fail() {
     let (a, b) = (any_rep(), any_rep());
